@@ -23,8 +23,8 @@ func (c14) Rule() string {
 func (c14) Assumptions() []string {
 	return []string{"gates live inside harness-supplied Close methods (caller code), so no failpoint in the repository is needed to overlap the concurrent Close calls"}
 }
-func (c14) NumCases(tier string) int      { return tierN(tier, 400, 6000) }
-func (c14) NumRaceCases(tier string) int  { return tierN(tier, 60, 600) }
+func (c14) NumCases(tier string) int      { return tierN(tier, 400, 60000) }
+func (c14) NumRaceCases(tier string) int  { return tierN(tier, 60, 3000) }
 func (c14) MinNontrivial(tier string) int { return tierN(tier, 100, 1000) }
 
 type closeGate struct {
